@@ -660,6 +660,15 @@ fn decode_cell(ct: &ColumnType<'static>, cell: &[u8], decode: DecodeFn) -> Decod
     }
 }
 
+fn has_absent(v: &V) -> bool {
+    match v {
+        V::Absent => true,
+        V::Seq(vs) | V::Tup(vs) | V::Udt(vs) => vs.iter().any(has_absent),
+        V::Map(kvs) => kvs.iter().any(|(k, x)| has_absent(k) || has_absent(x)),
+        _ => false,
+    }
+}
+
 pub fn execute(
     ctx: &Ctx,
     name: &str,
@@ -697,7 +706,9 @@ pub fn execute(
         vec![(format!("{name}/add_value"), a), (format!("{name}/serialize"), b)]
     };
 
-    let held_json = held.to_json();
+    // A dynamic UDT value that does not list a field cannot be read back positionally from the CqlValue
+    // (`from_cql` has no type): for such inputs the record carries the input value itself.
+    let held_json = if has_absent(ctx.v) { ctx.v.to_json() } else { held.to_json() };
     for (cname, res) in variants {
         let (cell, decoded, ser_err, de_err) = match res {
             SerRes::Ok(cell) => match decode_cell(ctx.ct, &cell, decode) {
